@@ -147,6 +147,22 @@ pub fn build_graph(gs: &GraphSpec) -> Result<(G, Built), BuildPanic> {
             i += 1;
         }
         let g = b.build();
+        // provenance: the value that is run may be a clone, or an older graph value
+        // refreshed with `clone_from` (Clone is part of the public surface of FnGraph)
+        let g = match gs.provenance {
+            1 => g.clone(),
+            2 => {
+                let mut scratch = build_variant(gs);
+                scratch.clone_from(&g);
+                scratch
+            }
+            3 => {
+                let mut scratch = G::new();
+                scratch.clone_from(&g);
+                scratch
+            }
+            _ => g,
+        };
         built.preds = vec![Vec::new(); built.n];
         built.succs = vec![Vec::new(); built.n];
         for e in g.graph.raw_edges() {
@@ -166,6 +182,35 @@ pub fn build_graph(gs: &GraphSpec) -> Result<(G, Built), BuildPanic> {
         (g, built)
     }));
     r.map_err(|p| BuildPanic(panic_msg(&p)))
+}
+
+/// A different graph of (almost) the same size: reads and writes swapped, every other
+/// edge call dropped and the rest reversed where that is acyclic, last function missing.
+fn build_variant(gs: &GraphSpec) -> G {
+    let mut b = FnGraphBuilder::<SimFn>::new();
+    let n = gs.fns.len().saturating_sub(1);
+    let ids: Vec<_> = gs
+        .fns
+        .iter()
+        .take(n)
+        .enumerate()
+        .map(|(i, f)| {
+            b.add_fn(SimFn {
+                id: i,
+                reads: f.writes,
+                writes: f.reads,
+                style: 0,
+                own: 0,
+                visits: 0,
+            })
+        })
+        .collect();
+    for (k, c) in gs.calls.iter().enumerate() {
+        if k % 2 == 0 && c.from < n && c.to < n {
+            let _ = b.add_logic_edge(ids[c.to], ids[c.from]);
+        }
+    }
+    b.build()
 }
 
 pub fn panic_msg(p: &Box<dyn std::any::Any + Send>) -> String {
